@@ -323,7 +323,7 @@ frecipe('derived/QuadraticForm(op-only)*v', ('rn',), 'pl', [FUN + 'FunctionalRig
     lambda ctx, sp: S.QuadraticForm(
         operator=odl.MatrixOperator(np.array([[2.0, 0.5], [0.5, 1.0]]), domain=sp, range=sp))
     * sp.element([2.0, -0.5]))
-frecipe('derived/QuadraticForm(op-only)*t', ('rn',), 'pl', [FUN + 'FunctionalRightVectorMult'])(
+frecipe('derived/QuadraticForm(op-only)*t', ('rn',), 'pl', [FUN + 'FunctionalRightVectorMult'], only=('C03', 'C09'))(
     lambda ctx, sp: S.QuadraticForm(
         operator=odl.MatrixOperator(np.array([[2.0, 0.5], [0.5, 1.0]]), domain=sp, range=sp))
     * celem(ctx, sp, 't'))
